@@ -517,7 +517,26 @@ func TestC20_VerifierOutcomes(t *testing.T) {
 			run(c20VCase{Entry: "SignMessage.Verify", Modes: modes})
 		}
 	}
-	stats.ExhaustivePart("verifier outcome vectors (3 outcomes per call; SignMessage n<=5)", n)
+	// many signatures: one refusing verifier at every position, and pairs (whatever an implementation does differently
+	// from some count on - batches, workers - a refusal anywhere is a refusal)
+	for _, k := range []int{6, 7, 8, 9, 10, 11, 12, 13, 16, 17, 18, 31, 32, 33, 41} {
+		for i := 0; i < k; i++ {
+			for m := 1; m < 5; m++ {
+				modes := make([]int, k)
+				modes[i] = m
+				run(c20VCase{Entry: "SignMessage.Verify", Modes: modes})
+			}
+			for _, j := range []int{0, i / 2, k - 1} {
+				if j != i {
+					modes := make([]int, k)
+					modes[i], modes[j] = 1, 2
+					run(c20VCase{Entry: "SignMessage.Verify", Modes: modes})
+				}
+			}
+		}
+		run(c20VCase{Entry: "SignMessage.Verify", Modes: make([]int, k)})
+	}
+	stats.ExhaustivePart("verifier outcome vectors (3 outcomes per call; SignMessage n<=5 all vectors, n = 6 .. 41 one or two refusals at every position)", n)
 }
 
 // ---------------------------------------------------------------------------
